@@ -251,6 +251,11 @@ def run(rep: C.Report) -> None:
     gen0, _ = xh.prepare(H)
     try:
         mod = xh.load(gen0)
+    except Exception as e:  # the slices' anchors are gone (refactored source): nothing can be claimed
+        rep.add(C.Ob("Ob0-Ob2 sliced argument views", "E1 CrossHair", [], "", verdict=C.NOT_ENCODABLE, detail=f"harness cannot be built from the current source: {type(e).__name__}: {e}"))
+        e2_classification(rep)
+        return
+    try:
         for probe in KNOWN_PROBES:
             sig, bad, what = mod._replay(probe)
             if bad:
